@@ -2384,6 +2384,10 @@ def check_c09(prog, rep, tier, cfg):
     # not leak from an empty line onto the tokens collected next (shared with C07.j)
     import text as _text
     _text.finished_line_type_does_not_survive(prog, rep, "C09.i")
+    # C09.m — where a line comment ends is decided by a search for LF *and* CR (a comment that runs over a lone CR carries it into the output
+    # under every line_ending): the closed inventory of the lexer's terminator searches (shared with C13.e)
+    import lexer_rules as _lxr9
+    _lxr9.c13e(prog, AliasReport(rep, [("C13.e", r".", "C09.m")]))
     # C09.l — the line breaks of the input reach the output only in front of ignored tokens: the emission step reads a token's original
     # whitespace only under is_ignored() (shared with C06.e) — a "copy it if it already looks right" path compares lengths, not bytes
     if not getattr(rep, "_c09_alias_c06", False):
